@@ -49,6 +49,16 @@ func BindWithStats(stmt *Statement, params map[string]any) ([]Issue, BindStats) 
 	return b.issues, b.stats
 }
 
+// BindHarness binds a statement that DAWGS hands to the shortest-path harness functions as text
+// (primer / recursive / filter statements). Such a statement runs inside the plpgsql function,
+// after the harness created its temporary tables (forward_front, next_front, visited,
+// traversal_*_filter, …), so those tables are visible – and nothing of the calling statement is
+// (no CTE of the caller, no @parameter unless listed in params).
+func BindHarness(stmt *Statement, params map[string]any) ([]Issue, BindStats) {
+	b := bindStatementOpts(stmt, params, true)
+	return b.issues, b.stats
+}
+
 // ---- bound information used by the executor ------------------------------------------------
 
 type colRes struct {
@@ -128,6 +138,7 @@ type binding struct {
 	colScope map[*ColumnRef]*selInfo
 	dml      map[Node]*selInfo // synthetic select scope of INSERT / UPDATE / DELETE
 	unsupp   []string
+	harness  bool // temporary tables of the shortest-path harness are visible
 }
 
 type scope struct {
@@ -144,7 +155,12 @@ type scope struct {
 }
 
 func bindStatement(stmt *Statement, params map[string]any) *binding {
+	return bindStatementOpts(stmt, params, false)
+}
+
+func bindStatementOpts(stmt *Statement, params map[string]any, harness bool) *binding {
 	b := &binding{
+		harness:  harness,
 		params:   params,
 		cols:     map[*ColumnRef]colRes{},
 		sel:      map[*Select]*selInfo{},
@@ -163,7 +179,8 @@ func bindStatement(stmt *Statement, params map[string]any) *binding {
 					b.issue("unsupported", 0, false, "%s", u.Reason)
 					return
 				}
-				panic(r)
+				// a bug in the binder must never become a verdict
+				b.issue("unsupported", 0, false, "internal error: %v", r)
 			}
 		}()
 		switch t := stmt.Body.(type) {
@@ -205,13 +222,26 @@ var baseTables = map[string]*rte{
 	"edge":  {cols: []string{"id", "graph_id", "start_id", "end_id", "kind_id", "properties"}, types: []string{"int8", "int4", "int8", "int8", "int2", "jsonb"}, rowType: "edge"},
 	"kind":  {cols: []string{"id", "name"}, types: []string{"int2", "text"}, rowType: "kind"},
 	"graph": {cols: []string{"id", "name"}, types: []string{"int8", "text"}, rowType: "graph"},
-	// temp tables of the shortest-path harness (created by create_*_tables())
+}
+
+// harnessTables are the temporary tables the shortest-path harness functions of schema_up.sql
+// create (ON COMMIT DROP); they exist only while a harness function runs.
+var harnessTables = map[string]*rte{
 	"traversal_root_filter":     {cols: []string{"id"}, types: []string{"int8"}},
 	"traversal_terminal_filter": {cols: []string{"id"}, types: []string{"int8"}},
 	"traversal_pair_filter":     {cols: []string{"root_id", "terminal_id"}, types: []string{"int8", "int8"}},
+	"unresolved_pairs":          {cols: []string{"root_id", "terminal_id"}, types: []string{"int8", "int8"}},
+	"resolved_pair_depths":      {cols: []string{"root_id", "terminal_id", "depth"}, types: []string{"int8", "int8", "int4"}},
+	"resolved_roots":            {cols: []string{"root_id"}, types: []string{"int8"}},
+	"visited":                   {cols: []string{"root_id", "id"}, types: []string{"int8", "int8"}},
+	"forward_visited":           {cols: []string{"root_id", "id"}, types: []string{"int8", "int8"}},
+	"backward_visited":          {cols: []string{"root_id", "id"}, types: []string{"int8", "int8"}},
 	"forward_front":             {cols: []string{"root_id", "next_id", "depth", "satisfied", "is_cycle", "path"}, types: []string{"int8", "int8", "int4", "bool", "bool", "int8[]"}},
 	"backward_front":            {cols: []string{"root_id", "next_id", "depth", "satisfied", "is_cycle", "path"}, types: []string{"int8", "int8", "int4", "bool", "bool", "int8[]"}},
 	"next_front":                {cols: []string{"root_id", "next_id", "depth", "satisfied", "is_cycle", "path"}, types: []string{"int8", "int8", "int4", "bool", "bool", "int8[]"}},
+	"paths":                     {cols: []string{"root_id", "next_id", "depth", "satisfied", "is_cycle", "path"}, types: []string{"int8", "int8", "int4", "bool", "bool", "int8[]"}},
+	"resolved_paths":            {cols: []string{"root_id", "next_id", "depth", "satisfied", "is_cycle", "path"}, types: []string{"int8", "int8", "int4", "bool", "bool", "int8[]"}},
+	"resolved_pairs":            {cols: []string{"root_id", "next_id", "depth", "satisfied", "is_cycle", "path"}, types: []string{"int8", "int8", "int4", "bool", "bool", "int8[]"}},
 }
 
 // ---- queries -------------------------------------------------------------------------------
@@ -825,8 +855,9 @@ func (b *binding) bindFromItem(item FromItem, sc *scope, left []int) []int {
 		case def.agg:
 			b.issue("aggregate-misuse", t.Pos, true, "aggregate functions are not allowed in functions in FROM")
 			r.cols, r.types = []string{t.Call.Name}, []string{""}
+		case !b.checkArgCount(t.Call, def):
+			r.cols, r.types = []string{t.Call.Name}, []string{""}
 		default:
-			b.checkArgCount(t.Call, def)
 			if def.tableCols != nil {
 				r.cols, r.types = def.tableCols(argTypes)
 			} else {
@@ -906,6 +937,9 @@ func (b *binding) resolveTable(t *TableRef, sc *scope) *rte {
 		if bt, ok := baseTables[t.Name]; ok {
 			return &rte{alias: t.Name, cols: append([]string(nil), bt.cols...), types: append([]string(nil), bt.types...), rowType: bt.rowType}
 		}
+	}
+	if ht, ok := harnessTables[t.Name]; ok && b.harness && (t.Schema == "" || t.Schema == "pg_temp") {
+		return &rte{alias: t.Name, cols: append([]string(nil), ht.cols...), types: append([]string(nil), ht.types...)}
 	}
 	name := t.Name
 	if t.Schema != "" {
